@@ -81,3 +81,9 @@ CHECKS["C14"] = {
   "text": "1-14 timestamped minute rows (TWAP window live, shorter than 7 rows at the start), ETH / oSQTH / norm-factor paths with jumps and flats; programs of open / deposit / mint at 0..120% of the 1.5x limit (incl. 1 +- 1e-7), burn-and-withdraw fractions, LP positions minted around the price, lent to and taken back from vaults; per step: TWAP = geometric mean of the trailing <= 7 rows (1e-9), accepted mint / withdrawal / LP withdrawal => collateral (ETH + LP at index price) >= 1.5 x debt and >= 0.5 ETH, mints with 0.1% margin accepted, exact oSQTH / ETH movements between wallet and vault, no negative amounts; at bar end: liquidated iff below 1.5x, LP redeemed first (WETH to collateral, oSQTH burned, excess to wallet, 2% bounty limited to the collateral), then half / all rule at TWAP oSQTH x 1.1 capped at the collateral, wallet WETH untouched. Sampled exploration.",
   "note": "Float TWAP: decisions within 1e-7 of a limit are not asserted. LP token amounts are read from the pool market's position view (C07). The bounty cap is the repaired behaviour (the contract would revert there).",
 }
+
+CHECKS["C01"] = {
+  "technique": "Hypothesis generated multi-market universes (market mix, order, quote token, interval, data paths, program of operations with run-time selectors) run through the real Actuator; every bar's reported net value, asset value and per-market value compared with an independent Fraction / closed-form valuation of the raw position containers from the generated data rows",
+  "text": "Any non-empty mix of Uniswap (either token order / quote), Aave, Squeeth + its pool, Deribit, GMX v1, GMX v2 behind one broker, account quote USD / USDC / WETH, 1/2/5/15/60-minute bars, crashes that liquidate, expiries, deposits on closed hourly bars, LP positions lent to vaults, external prices on and off the pools' own; at the end of every bar wallet, liquidity + pending fees (lent positions skipped in the pool and counted once in the vault), supplies - debts at the bar's indices, vault collateral - short, option cash + positions at mark, GLP + rewards, GM share of pool value are recomputed from the generated rows (exact closed forms / rationals) and compared with AccountStatus. Sampled exploration.",
+  "note": "The conversion of a market's value uses the price-frame entry of the market's quote token, as the property states; USD-valued markets convert at 1. Resampled bars use the documented aggregation (first / last / sum) computed independently by integer binning.",
+}
